@@ -31,8 +31,67 @@ class StreamDomain(ObjectDomain):
             if n.split(".")[0].strip("<>") in self.accepting or n.startswith(tuple(a + "." for a in self.accepting)):
                 return [("val", NONE)]
             return None
-        ctors = set(kw.pop("ctors", ())) | {"_make_content_type"}   # MIME strings are parsed by the email package: kept symbolic
+        ctors = set(kw.pop("ctors", ()))
         super().__init__(classes, attrs=kw.pop("attrs", {"self": ("self",)}), oracle=answer, ctors=ctors, log_cap=kw.pop("log_cap", 60), **kw)
+
+    # -- the email package (MIME header parsing), folded on constant headers -----------------------------
+    # email.message.EmailMessage() is an object with headers; get_content_type() and header.params are computed by the
+    # standard library itself from the (constant) header text -- the environment's own semantics, not testtools code.
+    @staticmethod
+    def _parsed(header):
+        import email.message
+        msg = email.message.EmailMessage()
+        msg["content-type"] = header
+        return msg.get_content_type(), dict(msg["content-type"].params)
+
+    def call(self, interp, call, st, fr):
+        from ..astutil import dotted
+        d = dotted(call.func) or ""
+        if d.split(".")[-1] in ("EmailMessage",) and not call.args and not call.keywords:
+            n = st.get("ev.email", 0)
+            return [val(("emailmsg", n), st.set("ev.email", n + 1))]
+        if isinstance(call.func, ast.Attribute) and call.func.attr == "get_content_type" and not call.args:
+            got = interp.eval(call.func.value, st, fr)
+            if got and all(r.kind == "exc" or (isinstance(r.value, tuple) and r.value[:1] == ("emailmsg",)) for r in got):
+                out = []
+                for r in got:
+                    if r.kind == "exc":
+                        out.append(r)
+                        continue
+                    header = r.state.get(f"em.{r.value[1]}.content-type", None)
+                    if isinstance(header, tuple) and header[:1] == ("const",) and isinstance(header[1], str):
+                        try:
+                            out.append(val(("const", self._parsed(header[1])[0]), r.state))
+                        except Exception as e_:   # the library rejects the header: so would it at run time
+                            out.append(exc(("exc", type(e_).__name__), r.state))
+                    else:
+                        out.append(val(TOP, r.state))
+                return out
+        return super().call(interp, call, st, fr)
+
+    def store_subscript(self, target, value, st, fr, interp):
+        if isinstance(target.value, ast.Name) and st.has(fr.local(target.value.id)):
+            base = st.get(fr.local(target.value.id))
+            if isinstance(base, tuple) and base[:1] == ("emailmsg",) and isinstance(target.slice, ast.Constant) and isinstance(target.slice.value, str):
+                return st.set(f"em.{base[1]}.{target.slice.value.lower()}", value)
+        return super().store_subscript(target, value, st, fr, interp)
+
+    def subscript(self, base, idx, st, fr):
+        if isinstance(base, tuple) and base[:1] == ("emailmsg",) and isinstance(idx, tuple) and idx[:1] == ("const",) and isinstance(idx[1], str):
+            return ("emailheader", base[1], idx[1].lower())
+        return super().subscript(base, idx, st, fr)
+
+    def attr_of_value(self, interp, value, attr, st, fr):
+        if isinstance(value, tuple) and value[:1] == ("emailheader",) and attr == "params":
+            header = st.get(f"em.{value[1]}.{value[2]}", None)
+            if isinstance(header, tuple) and header[:1] == ("const",) and isinstance(header[1], str):
+                try:
+                    params = self._parsed(header[1])[1]
+                except Exception as e_:
+                    return [exc(("exc", type(e_).__name__), st)]
+                return [val(("kwdict", tuple((k, ("const", v)) for k, v in params.items())), st)]
+            return [val(TOP, st)]
+        return super().attr_of_value(interp, value, attr, st, fr)
 
     # -- describing what a callback / a target receives -------------------------------------------------
     def describe(self, interp, v, st, fr, depth=0):
